@@ -82,7 +82,11 @@ func (c *checker) fsm(e *sim.Ev) {
 		st.restores++
 		st.afterRest = true
 		st.payloadAt = map[string]uint64{}
-		c.restoreChecks = append(c.restoreChecks, restoreCheck{key: key, content: content, seq: e.Seq})
+		rc := restoreCheck{key: key, content: content, seq: e.Seq}
+		if pick != nil {
+			rc.index, rc.term, rc.known = pick.index, pick.term, true
+		}
+		c.restoreChecks = append(c.restoreChecks, rc)
 		c.ext.restore(c, s, key, pick, e)
 	case "f.restore.bad":
 		c.violate("C02", "restore-garbage", e.Seq, "FSM of %s was handed undecodable snapshot content %q", key, e.X)
@@ -217,6 +221,7 @@ func (c *checker) finishFSM() {
 		}
 	}
 	cn := c.buildCanon()
+	c.finishRestores(cn)
 	// C11 snapshot fidelity / C02.3 restore content
 	for _, sc := range c.snapsPending {
 		c.cov("snapshot-fidelity-checked")
@@ -247,6 +252,25 @@ func (c *checker) finishFSM() {
 		}
 		if ci > 0 && ci == sc.cfgIdx && cc != sc.cfg {
 			c.violate("C11", "snapshot-wrong-configuration", sc.seq, "snapshot on %s at index %d carries configuration %s for index %d; committed is %s", sc.key, sc.index, sc.cfg, ci, cc)
+		}
+	}
+}
+
+// C02.3: a restore (start-up, InstallSnapshot) leaves the FSM in exactly the state the agreed
+// history produces up to the index the snapshot is stamped with - whoever wrote that snapshot.
+func (c *checker) finishRestores(cn *canon) {
+	for _, rc := range c.restoreChecks {
+		if !rc.known || c.ext.isUserContent(rc.content) || c.isUserRestoreSnap(snapCheck{index: rc.index, content: rc.content}) {
+			continue
+		}
+		got, err := sim.DecodeState(rc.content)
+		if err != nil {
+			continue
+		}
+		c.cov("restore-content-checked")
+		want := cn.stateAt(rc.index)
+		if got.Hash != want.Hash || got.Cnt != want.Cnt {
+			c.violate("C02", "restore-wrong-content", rc.seq, "FSM of %s was restored from the snapshot stamped index %d (term %d) to state (cnt %d, last %d, hash %x) but the agreed history up to %d gives (cnt %d, last %d, hash %x)", rc.key, rc.index, rc.term, got.Cnt, got.Last, got.Hash, rc.index, want.Cnt, want.Last, want.Hash)
 		}
 	}
 }
